@@ -24,9 +24,6 @@ NOTES = ('Exit codes of ./check: 0 = all obligations of the property\'s cone dis
 _NOT_YET = 'verification unit not built yet in this round (see DESIGN.md section 8 for the build order)'
 NOT_APPLICABLE = {
     'C16': 'byte-level behaviour of zip / std::fs / Bdd::write_as_string: straight-line glue over foreign crates through io::Write trait machinery that Verus cannot type; a contract would have to assume a model of zip archives that *is* the property (DESIGN.md section 6)',
-    'C17': ('the observable is process-level (argv parsing by clap, stdout text, exit status, files and zip archives written and read back); the library half '
-            '(load_formulae, analyse_formulae) is string / file glue over std::fs, println! and the foreign model parsers, none of which has a Verus specification; '
-            'a contract would consist of assumed models of exactly the parts the property is about. The evaluation the tool performs is covered by C01 / C04 / C15.'),
 }
 for _p in ['C%02d' % i for i in range(1, 21)]:
     NOT_APPLICABLE.setdefault(_p, _NOT_YET)
@@ -339,4 +336,27 @@ PROPS['C09'] = {
     'trusted': ['prelude/lex_model.rs (Peekable<Chars> as the ghost sequence of remaining characters), prelude/std_model.rs (String keys, &str borrow)',
                 'R-orguard (or-pattern with guard -> equality tests && guard), R-byref (for x in it.by_ref() -> while let Some(x) = it.next()), R-noprint (println! removed from the never-taken branch)',
                 'format!("{}", i32) modelled by the uninterpreted dec_digits_int, assumed injective and free of the character } (axiom_dec_inj, axiom_dec_no_brace)'],
+}
+PROPS['C17'] = {
+    'units': ['tool', 'api', 'eval', 'ops', 'front', 'lex', 'tree', 'mark', 'canon'],
+    'functions': {'tool': None, 'api': [], 'eval': [], 'ops': [], 'front': [], 'lex': [], 'tree': [], 'mark': [], 'canon': []},
+    'level_text': ('PARTIAL (evaluation half of the tool, plain mode = no context archive). Proof on analyse_formulae / analyse_formula (src/analysis.rs) that, for every network, every list of '
+                   'formula texts and every print option: the formulae are parsed, checked and renamed in file order; the graph is built with as many spare variable sets as the deepest formula needs; '
+                   'formula number i is evaluated on its own tree; and at every output call site the set handed over IS the set the library returns for that line (result_exact: the points of the unit set '
+                   'that satisfy the accepted tree of the text, by C01 / C03 / C04 / C14 the result of model_check_formula_dirty): summarize_results / print_results_full receive (formula i, its result), '
+                   'and build_result_archive receives a map with exactly one entry per formula, entry "formula-i" holding the result of line i of the formula list it archives (archive_ok). '
+                   'These statements are the PRECONDITIONS of the (unverified) output functions, so every call site has to prove them. A formula that is not in the token language, not derivable from '
+                   'the grammar or badly scoped makes the function return Err (reported as a message by main) and no index, unwrap or arithmetic operation of the function can panic.'),
+    'level_note': ('NOT decided: the process level (clap argument parsing, reading the model and formula files, load_formulae comment / blank line handling, the text written to stdout, the bytes of the zip archive, '
+                   'reading a context archive back) and the extended mode (context archive given: the contract requires context_archive_path is None; that branch is type-checked only). '
+                   'Preconditions: the network has at least one variable; formula texts shorter than 2^32 characters whose trees are small (as for the library entry points) and need at most 65535 variable sets '
+                   '(`max_num_hctl_vars as u16`). ASSUMED: SymbolicContext::new succeeds on the loaded network; get_extended_symbolic_graph(bn, k) returns a graph of that network with k spare variable sets and the '
+                   'full unit set (foreign constructors); the plain symbolic context and the graph name the same network variables. Failures of the shared evaluator / front end are attributed to C01.. C14, not to C17 '
+                   '(the tool calls the same functions as the library, so it stays equal to the library).'),
+    'explanation': 'contracts/tool.ctr, spec/tool.rs (result_exact, archive_ok, results_inv, lemma_results_insert), prelude/tool_model.rs; unit tool assumes the contracts of eval_node, from_multiple_trees, compute_steady_states, the parsers and the renamer, which are proved in units eval, mark, front.',
+    'trusted': _EVAL_TRUSTED + ['prelude/tool_model.rs: SystemTime::now, BooleanNetwork::to_string, SymbolicContext::new (assumed Ok), Result::map_err (R-maperr), derive(Clone, Copy) of PrintOptions',
+                'output functions print_if_allowed, summarize_results, print_results_full, build_result_archive, load_bdd_bundle are NOT verified (stdout, zip, file system); their preconditions carry the claim',
+                'R-printargs (the text argument of print_if_allowed is opaque), R-enumloop (for (i, x) in v.iter().enumerate() as the index loop), R-callback (local progress observer removed), R-fmt-val',
+                'axiom_dec_digits_inj: the decimal rendering of usize by format! is injective (distinct indices give distinct archive keys)'],
+    'assumptions': _EVAL_ASSUME,
 }
